@@ -41,6 +41,8 @@ Kinds == {"connectHost",    \* CONNECT example.org:443
           "udpPost",        \* POST with authority _udp2
           "connectNoPort",  \* CONNECT example.org          (no port)
           "getNoHost",      \* GET /index.html, no Host     (names no destination at all; HTTP/1.1 origin-form)
+          "connectIpNoPort",  \* CONNECT 203.0.113.7        (a literal without a port is a CONNECT without a port)
+          "connectIp6NoPort", \* CONNECT [2001:db8::7]
           "upperCheck",     \* CONNECT _CHECK:443           (look-alike: ordinary host name)
           "checkPort",      \* CONNECT _check:80            (look-alike: ordinary host name)
           "udpSuffix"}      \* CONNECT _udp2x:443           (look-alike: ordinary host name)
@@ -122,7 +124,7 @@ Dispatch(k) ==
     CASE k = "check"                      -> "health"
       [] k \in MuxKinds                   -> "mux"
       [] k \in {"checkGet", "udpPost"}    -> "badMethod"
-      [] k \in {"connectNoPort", "getNoHost"} -> "noPort"
+      [] k \in {"connectNoPort", "getNoHost", "connectIpNoPort", "connectIp6NoPort"} -> "noPort"
       [] OTHER                            -> "tcp"
 
 --------------------------------------------------------------------------
@@ -257,7 +259,7 @@ ExactlyOne ==
 
 \* C10: reserved authorities and port-less CONNECTs never reach the connector
 ReservedNeverDialled ==
-    \A s \in Streams : req[s].kind \in {"check", "udp", "icmp", "checkGet", "udpPost", "connectNoPort", "getNoHost"}
+    \A s \in Streams : req[s].kind \in {"check", "udp", "icmp", "checkGet", "udpPost", "connectNoPort", "getNoHost", "connectIpNoPort", "connectIp6NoPort"}
                         => << s, "tcp" >> \notin egress
 
 \* C10: the response is the documented one
